@@ -23,8 +23,10 @@ TSetRound == IsEvent("SetRound") /\ kind = "get" /\ round' = Ev.r
              /\ UNCHANGED <<kind, calls, pos, memo, bad, hist, keysOf>>
 TNew == IsEvent("New") /\ round' = Ev.r /\ calls' = 0 /\ pos' = Ev.r * Cohort
         /\ UNCHANGED <<kind, memo, bad, hist, keysOf>>
+\* sample() raised (the dataset failed while the cohort was being fetched): the round is not consumed
+TFailed == IsEvent("SampleFailed") /\ UNCHANGED <<vars, keysOf>>
 TEnd == IsEvent("End") /\ UNCHANGED <<vars, keysOf>>
-TraceNext == TSample \/ TSetRound \/ TNew \/ TEnd
+TraceNext == TSample \/ TSetRound \/ TNew \/ TFailed \/ TEnd
 
 KeysDistinctInRound == \A r \in DOMAIN keysOf : Cardinality(keysOf[r]) = T.cohort
 KeysDifferAcrossRounds == \A r1, r2 \in DOMAIN keysOf : r1 # r2 => keysOf[r1] \cap keysOf[r2] = {}
